@@ -8,16 +8,21 @@ package txexec
 // records what it observed (step-charge decisions); it does not know expected outcomes.
 
 import (
+	"encoding/json"
 	"fmt"
 	"math/big"
 	"sync"
 
 	"github.com/icon-project/goloop/common"
+	"github.com/icon-project/goloop/common/codec"
 	"github.com/icon-project/goloop/common/errors"
+	"github.com/icon-project/goloop/common/log"
 	"github.com/icon-project/goloop/module"
 	"github.com/icon-project/goloop/service/contract"
+	"github.com/icon-project/goloop/service/eeproxy"
 	"github.com/icon-project/goloop/service/scoreapi"
 	"github.com/icon-project/goloop/service/scoreresult"
+	"github.com/icon-project/goloop/service/state"
 )
 
 const scriptCID = "verif.script"
@@ -46,6 +51,7 @@ type txRec struct {
 	Entered bool   // the first frame's contract code was reached
 	Orc     []bool // step-charge decisions in execution order (true = the charge fitted)
 	Errs    []string
+	Hung    int // calls of the never-answering handler that started waiting
 }
 
 func (r *txRec) dec(ok bool) {
@@ -160,15 +166,20 @@ func (s *scriptScore) Ex_run(p string) error {
 	if err != nil {
 		return err
 	}
-	return s.exec(r, pg)
+	return execProg(s.cc, r, pg)
 }
 
 func isOutOfStep(status error) bool {
 	return status != nil && errors.CodeOf(status) == scoreresult.OutOfStepError
 }
 
-func (s *scriptScore) exec(r *txRec, pg *prog) error {
-	cc := s.cc
+func isTimeout(status error) bool {
+	return status != nil && errors.CodeOf(status) == scoreresult.TimeoutError
+}
+
+// execProg performs the operations of a program through the real CallContext. It is shared by
+// the system SCORE (asynchronous CallHandler frames) and the synchronous handler double.
+func execProg(cc contract.CallContext, r *txRec, pg *prog) error {
 	e := r.env
 	self := e.addr[pg.self]
 	for _, o := range pg.ops {
@@ -241,6 +252,10 @@ func (s *scriptScore) exec(r *txRec, pg *prog) error {
 			}
 			status, used, _, _ := cc.Call(h, cc.StepAvailable())
 			cc.DeductSteps(used)
+			if isTimeout(status) {
+				// a timeout is not an outcome a caller may handle: it travels up to the transaction
+				return status
+			}
 			if status != nil && !o.C {
 				return status
 			}
@@ -251,3 +266,121 @@ func (s *scriptScore) exec(r *txRec, pg *prog) error {
 	}
 	return nil
 }
+
+// ---------------------------------------------------------------------------------------------
+// Handler doubles for two dedicated contract addresses, handed out by a wrapping ContractManager:
+//   "s"  a SyncContractHandler that runs the program like the system SCORE does (the frames of
+//        the system SCOREs are asynchronous CallHandler frames; this one is synchronous);
+//   "z"  an AsyncContractHandler that never answers, so that callContext.waitResult gives up
+//        when the chain's TransactionTimeout expires.
+
+type verifCM struct {
+	contract.ContractManager
+	env *env
+}
+
+func progIDOfJSON(data []byte) string {
+	var d struct {
+		Params struct {
+			P string `json:"p"`
+		} `json:"params"`
+	}
+	_ = json.Unmarshal(data, &d)
+	return d.Params.P
+}
+
+func progIDOfObj(obj *codec.TypedObj) string {
+	v, err := common.DecodeAny(obj)
+	if err != nil {
+		return ""
+	}
+	m, _ := v.(map[string]interface{})
+	pm, _ := m["params"].(map[string]interface{})
+	p, _ := pm["p"].(string)
+	return p
+}
+
+func (m *verifCM) double(from, to module.Address, value *big.Int, id string, interCall bool) contract.ContractHandler {
+	if m.env == nil || to == nil {
+		return nil
+	}
+	ch := contract.NewCommonHandler(from, to, value, interCall, m.ContractManager.Logger())
+	switch m.env.name[to.String()] {
+	case "s":
+		return &syncHandler{CommonHandler: ch, id: id}
+	case "z":
+		return &hangHandler{CommonHandler: ch}
+	}
+	return nil
+}
+
+func (m *verifCM) GetHandler(from, to module.Address, value *big.Int, ctype int, data []byte) (contract.ContractHandler, error) {
+	if h := m.double(from, to, value, progIDOfJSON(data), false); h != nil {
+		return h, nil
+	}
+	return m.ContractManager.GetHandler(from, to, value, ctype, data)
+}
+
+func (m *verifCM) GetCallHandler(from, to module.Address, value *big.Int, ctype int, paramObj *codec.TypedObj) (contract.ContractHandler, error) {
+	if h := m.double(from, to, value, progIDOfObj(paramObj), true); h != nil {
+		return h, nil
+	}
+	return m.ContractManager.GetCallHandler(from, to, value, ctype, paramObj)
+}
+
+type syncHandler struct {
+	*contract.CommonHandler
+	id string
+}
+
+func (h *syncHandler) ExecuteSync(cc contract.CallContext) (error, *codec.TypedObj, module.Address) {
+	r := recFor(cc.TransactionID())
+	if r == nil {
+		return scoreresult.UnknownFailureError.New("verif: unregistered transaction"), nil, nil
+	}
+	pg := r.lookup(h.id)
+	if pg == nil {
+		r.fail("unknown program %q", h.id)
+		return scoreresult.UnknownFailureError.New("verif: unknown program"), nil, nil
+	}
+	err := cc.ApplyCallSteps()
+	r.dec(err == nil)
+	if err != nil {
+		return err, nil, nil
+	}
+	return execProg(cc, r, pg), nil, nil
+}
+
+type hangHandler struct {
+	*contract.CommonHandler
+	eeproxy.CallContext // never used: the double does not talk to an execution engine
+}
+
+func (h *hangHandler) Logger() log.Logger { return h.CommonHandler.Logger() }
+
+func (h *hangHandler) ExecuteAsync(cc contract.CallContext) error {
+	r := recFor(cc.TransactionID())
+	if r == nil {
+		return scoreresult.UnknownFailureError.New("verif: unregistered transaction")
+	}
+	if cc.FrameID() == 2 { // the first frame of the transaction
+		r.mu.Lock()
+		r.Entered = true
+		r.mu.Unlock()
+	}
+	err := cc.ApplyCallSteps()
+	r.dec(err == nil)
+	if err != nil {
+		return err
+	}
+	r.mu.Lock()
+	r.Hung++
+	r.mu.Unlock()
+	return nil // ... and no result will ever be delivered
+}
+
+func (h *hangHandler) SendResult(status error, steps *big.Int, result *codec.TypedObj) error {
+	return nil
+}
+func (h *hangHandler) Dispose()              {}
+func (h *hangHandler) EEType() state.EEType { return state.NullEE }
